@@ -46,7 +46,7 @@ def indirect(el):
     return None
 
 
-DIRECT = {"evhttp_request_free_auto": "free", "evhttp_request_free": "free", "evhttp_request_free_": "unlink+free", "evhttp_connection_free": "confree",
+DIRECT = {"evhttp_request_free_auto": "free_auto", "evhttp_request_free": "free", "evhttp_request_free_": "unlink+free", "evhttp_connection_free": "confree",
           "evhttp_connection_reset_": "reset", "evhttp_connection_connect_": "connect", "evhttp_request_dispatch": "dispatch",
           "evhttp_connection_start_detectclose": "detectclose", "evhttp_connection_incoming_fail": "incoming_fail", "evhttp_connection_fail_": "fail",
           "bufferevent_disable": "disable", "evhttp_associate_new_request_with_connection": "associate", "event_add": "event_add", "event_del": "event_del",
@@ -136,15 +136,16 @@ def rule_done(P, E):
                 return None
             env = {evcon[1]: 1, kflags: flags, khead: 7, "event_debug_logging_mask_": 0}
             for rv, tr, env2 in outcomes(P, f, env, hook):
-                core_ = tuple(t for t in tr if t in ("TAILQ_REMOVE", "call:cb", "free", "unlink+free"))
-                want = ("TAILQ_REMOVE", "call:cb", "free") if flags & OUT else ("call:cb",)
+                core_ = tuple(t for t in tr if t in ("TAILQ_REMOVE", "call:cb", "free", "free_auto", "unlink+free"))
+                # free_auto: ownership (evhttp_request_own, typically called inside the callback) is sampled when the request is released, not before
+                want = ("TAILQ_REMOVE", "call:cb", "free_auto") if flags & OUT else ("call:cb",)
                 ok = core_ == want
                 # the connection may only be freed after the request was released, and only when autofree
                 if "confree" in tr:
-                    ok = ok and bool(flags & AUTOFREE) and tr.index("confree") > tr.index("free") and count(tr, "confree") == 1
+                    ok = ok and bool(flags & AUTOFREE) and "free_auto" in tr and tr.index("confree") > tr.index("free_auto") and count(tr, "confree") == 1
                 # nothing but the release and the guarded connection free follows the user callback
                 after = tr[tr.index("call:cb") + 1:] if "call:cb" in tr else ()
-                ok = ok and all(t in ("free", "confree") for t in after)
+                ok = ok and all(t in ("free_auto", "confree") for t in after)
                 r.inst((name, close, tr), {"connection": name, "peer_asked_close": close, "trace": list(tr)})
                 if not ok:
                     r.bad("K11:evhttp_connection_done:%s:protocol" % name.split("+")[0], "%s:%d" % (f.file, f.line), f.name,
@@ -234,7 +235,7 @@ def rule_cancel(P, E):
     req = ["var", f.params[0][0], "param"]
     evl = ["var", "evcon", "local"]
     khead = nkey(["fld", ["fld", evl, "evhttp_connection.requests", "->"], "evcon_requestq.tqh_first", "."])
-    for evcon, head, name, want in ((0, 0, "detached", ("free",)), (3, 1, "head", ("fail",)), (3, 8, "queued", ("TAILQ_REMOVE", "free"))):
+    for evcon, head, name, want in ((0, 0, "detached", ("free_auto",)), (3, 1, "head", ("fail",)), (3, 8, "queued", ("TAILQ_REMOVE", "free_auto"))):
         env = {req[1]: 1, nkey(["fld", req, "evhttp_request.evcon", "->"]): evcon, khead: head}
         cancel_arg = []
         def hook(el, e_):
@@ -246,7 +247,7 @@ def rule_cancel(P, E):
                 return 0
             return None
         for rv, tr, env2 in outcomes(P, f, env, hook):
-            core_ = tuple(t for t in tr if t in ("TAILQ_REMOVE", "free", "fail", "unlink+free"))
+            core_ = tuple(t for t in tr if t in ("TAILQ_REMOVE", "free", "free_auto", "fail", "unlink+free"))
             ok = core_ == want and (name != "head" or cancel_arg == [E["EVREQ_HTTP_REQUEST_CANCEL"]])
             r.inst(name, {"request": name, "trace": list(tr)})
             if not ok:
@@ -327,7 +328,7 @@ def rule_make(P, E):
                                 r.brk(str(ex))
                                 return r
                             for rv, tr, env2 in outs:
-                                core_ = tuple(t for t in tr if t in ("TAILQ_INSERT_TAIL", "TAILQ_REMOVE", "free", "unlink+free"))
+                                core_ = tuple(t for t in tr if t in ("TAILQ_INSERT_TAIL", "TAILQ_REMOVE", "free", "free_auto", "unlink+free"))
                                 if (rv, core_) in seen:
                                     continue
                                 seen.add((rv, core_))
@@ -335,13 +336,66 @@ def rule_make(P, E):
                                     ok = core_ == ("TAILQ_INSERT_TAIL",)
                                     want = "queued exactly once, not released (the connection owns it)"
                                 else:
-                                    ok = count(core_, "free") == 1 and count(core_, "TAILQ_INSERT_TAIL") == count(core_, "TAILQ_REMOVE")
+                                    ok = count(core_, "free_auto") == 1 and "free" not in core_ and count(core_, "TAILQ_INSERT_TAIL") == count(core_, "TAILQ_REMOVE")
                                     want = "released exactly once and not left on the queue (\"On failure, the request object is no longer valid as it has been freed\")"
                                 r.inst((rv, core_), {"returns": rv, "trace": list(core_), "example": {"uri_has_crlf": bad_uri, "strdup_ok": bool(dup), "retry_pending": bool(retry_cnt), "connected": connected, "connect_result": cres}})
                                 if not ok:
                                     r.bad("K3:evhttp_make_request:%s" % ("failure-keeps-request" if rv != 0 else "success-ownership"), "%s:%d" % (f.file, f.line), f.name,
                                           "returns %s with trace %s (uri_has_crlf=%d strdup=%s retry_pending=%d connected=%d connect_result=%d); documented: %s" % (
                                               rv, list(core_), bad_uri, "ok" if dup else "NULL", retry_cnt, connected, cres, want))
+    return r
+
+
+def rule_release(P, E):
+    r = Rule("C27-release", "K6", "evhttp_request_free_auto releases exactly the requests the user does not own; evhttp_request_free defers while a chunk callback runs; evhttp_request_free_ unlinks then releases", floor=5)
+    f = P.fn("evhttp_request_free_auto")
+    req = ["var", f.params[0][0], "param"]
+    OWNED = E.get("EVHTTP_USER_OWNED")
+    if OWNED is None:
+        r.brk("EVHTTP_USER_OWNED not found")
+        return r
+    for flags in (0, OWNED, OWNED | 1, 1):
+        for rv, tr, env2 in outcomes(P, f, {req[1]: 1, nkey(["fld", req, "evhttp_request.flags", "->"]): flags}):
+            want = () if flags & OWNED else ("free",)
+            core_ = tuple(t for t in tr if t in ("free", "free_auto"))
+            r.inst(("auto", flags), {"fn": f.name, "flags": flags, "trace": list(core_)})
+            if core_ != want:
+                r.bad("K6:evhttp_request_free_auto:ownership", "%s:%d" % (f.file, f.line), f.name, "flags %#x: trace %s, documented %s (a request taken with evhttp_request_own belongs to the user)" % (flags, list(core_), list(want)))
+    g = P.fn("evhttp_request_free")
+    rq = ["var", g.params[0][0], "param"]
+    DEFER, NEEDS = E.get("EVHTTP_REQ_DEFER_FREE"), E.get("EVHTTP_REQ_NEEDS_FREE")
+    if DEFER is None or NEEDS is None:
+        r.brk("EVHTTP_REQ_DEFER_FREE / NEEDS_FREE not found")
+        return r
+    kf = nkey(["fld", rq, "evhttp_request.flags", "->"])
+    for flags in (0, DEFER):
+        def hook(el, e_):
+            if callee_name(el.e) == "event_mm_free_" and eq(strip(el.e[2][0]), rq):
+                e_["#freed"] = e_.get("#freed", 0) + 1
+                return 0
+            if callee_name(el.e) in ("event_mm_free_", "evhttp_uri_free", "evhttp_clear_headers", "evbuffer_free"):
+                return 0
+            return None
+        env = {rq[1]: 1, kf: flags}
+        for fld in ("remote_host", "uri", "uri_elems", "response_code_line", "host_cache", "input_buffer", "output_buffer", "input_headers", "output_headers"):
+            env[nkey(["fld", rq, "evhttp_request.%s" % fld, "->"])] = 0
+        for rv, tr, env2 in outcomes(P, g, env, hook):
+            freed = env2.get("#freed", 0)
+            if flags & DEFER:
+                ok = freed == 0 and (env2.get(kf, 0) & NEEDS)
+                want = "not released now; NEEDS_FREE set (the caller running the chunk callback releases it afterwards)"
+            else:
+                ok = freed == 1
+                want = "released exactly once"
+            r.inst(("free", flags), {"fn": g.name, "flags": flags, "released": freed, "flags_after": env2.get(kf)})
+            if not ok:
+                r.bad("K6:evhttp_request_free:defer", "%s:%d" % (g.file, g.line), g.name, "flags %#x: released %d times, flags afterwards %s; protocol: %s" % (flags, freed, env2.get(kf), want))
+    h = P.fn("evhttp_request_free_")
+    for rv, tr, env2 in outcomes(P, h, {h.params[0][0]: 1, h.params[1][0]: 2}):
+        core_ = tuple(t for t in tr if t in ("TAILQ_REMOVE", "free", "free_auto"))
+        r.inst("free_", {"fn": h.name, "trace": list(core_)})
+        if core_ != ("TAILQ_REMOVE", "free_auto"):
+            r.bad("K6:evhttp_request_free_:protocol", "%s:%d" % (h.file, h.line), h.name, "trace %s, protocol: unlink, then release unless user-owned" % list(core_))
     return r
 
 
@@ -375,7 +429,7 @@ def rule_cleanup(P, E):
     if inner is not None:
         body = [s for s, l in inner.succ if l == "T"][0]
         rem_ok = f.path_avoiding((body, -1), lambda x: x is cb, lambda x: any(m == "TAILQ_REMOVE" for m in (x.mac or []))) is None
-    fre = f.path_avoiding(cb.pos(), lambda x: x is cb or x.e[0] == "ret", lambda x: x.e[0] == "call" and callee_name(x.e) in ("evhttp_request_free_auto", "evhttp_request_free"))
+    fre = f.path_avoiding(cb.pos(), lambda x: x is cb or x.e[0] == "ret", lambda x: x.e[0] == "call" and callee_name(x.e) == "evhttp_request_free_auto")
     detach = [el for el, lhs, op, rhs in f.stores() if fields_of(lhs)[-1:] == ["evhttp_request.evcon"] and is_null_e(rhs) and f.path_avoiding((body, -1) if inner is not None else (f.entry, -1), lambda x: x is cb, lambda x, el=el: x is el) is None]
     r.inst("give-up", {"completion": cb.where(), "unlinked_before_completion": rem_ok, "released_after_completion_on_every_path": fre is None, "detached_from_connection_before_completion": bool(detach)})
     if not rem_ok:
@@ -505,7 +559,7 @@ def run(ctx, config):
             rr.brk("flag macro %s not found in http.c" % n)
             return [rr]
     rules = []
-    for mk in (rule_done, rule_fail, rule_incoming_fail, rule_cancel, rule_send_done, rule_make, rule_cleanup, rule_teardown, rule_handle):
+    for mk in (rule_done, rule_fail, rule_incoming_fail, rule_cancel, rule_send_done, rule_make, rule_release, rule_cleanup, rule_teardown, rule_handle):
         try:
             rules.append(mk(P, E))
         except AnalysisBroken as ex:
